@@ -463,10 +463,19 @@ impl Node {
         }
     }
 
+    /// Clones the connection handle out of the map, so that no map guard is held across an
+    /// `.await`: the receiver task removes the entry when the peer closes, and a guard held by a
+    /// sender that is suspended in a write would block that removal (and the thread running it).
+    fn connection_to(&self, node_name: &str) -> Option<Arc<Mutex<Connection>>> {
+        self.connections
+            .get(node_name)
+            .map(|entry| entry.value().clone())
+    }
+
     async fn send_remote(&self, to: &ExternalPid, message: OwnedTerm) -> Result<()> {
         let node_name = to.node.as_str();
 
-        if let Some(conn) = self.connections.get(node_name) {
+        if let Some(conn) = self.connection_to(node_name) {
             let from = self
                 .pid_allocator
                 .allocate()
@@ -496,7 +505,7 @@ impl Node {
         } else {
             let node_name = to.node.as_str();
 
-            if let Some(conn) = self.connections.get(node_name) {
+            if let Some(conn) = self.connection_to(node_name) {
                 #[cfg(edp_rs_verif)]
                 edp_client::verif::sched_point("node::before_connection_lock").await;
                 let mut conn_guard = conn.lock().await;
@@ -523,7 +532,7 @@ impl Node {
         } else {
             let node_name = to.node.as_str();
 
-            if let Some(conn) = self.connections.get(node_name) {
+            if let Some(conn) = self.connection_to(node_name) {
                 let unlink_id = self.reference_counter.fetch_add(1, Ordering::SeqCst) as u64;
                 #[cfg(edp_rs_verif)]
                 edp_client::verif::sched_point("node::before_connection_lock").await;
@@ -562,7 +571,7 @@ impl Node {
         } else {
             let node_name = to.node.as_str();
 
-            if let Some(conn) = self.connections.get(node_name) {
+            if let Some(conn) = self.connection_to(node_name) {
                 #[cfg(edp_rs_verif)]
                 edp_client::verif::sched_point("node::before_connection_lock").await;
                 let mut conn_guard = conn.lock().await;
@@ -588,7 +597,7 @@ impl Node {
         } else {
             let node_name = to.node.as_str();
 
-            if let Some(conn) = self.connections.get(node_name) {
+            if let Some(conn) = self.connection_to(node_name) {
                 #[cfg(edp_rs_verif)]
                 edp_client::verif::sched_point("node::before_connection_lock").await;
                 let mut conn_guard = conn.lock().await;
@@ -693,7 +702,7 @@ impl Node {
         tracing::debug!("RPC reply_to_pid: {:?}", reply_to_pid);
 
         tracing::trace!("Looking up connection for node: {}", remote_node);
-        if let Some(conn) = self.connections.get(remote_node) {
+        if let Some(conn) = self.connection_to(remote_node) {
             tracing::trace!("Found connection, sending to rex");
             #[cfg(edp_rs_verif)]
             edp_client::verif::sched_point("node::before_connection_lock").await;
